@@ -17,23 +17,41 @@ META = {
             "negation of a REMOVED non-cant_delete (or MOVED %ordered) entry of the shown diff, or an exit word (guard: regular diff = "
             "no %force_commit, one attribute set per rule text); C02_diff_covered and C02_cant_delete_not_removed - the diff never "
             "mentions an unmatched row and never marks a cant_delete row REMOVED (unguarded). Device level (reference device "
-            "Model/Device.v), PARTIAL = top level of the configuration only: C02_cant_delete_kept_partial / _top_guarded - the slot of a "
-            "top-level cant_delete row is still occupied after the whole stream; C02_uncovered_untouched_partial / _top_guarded - a "
-            "top-level row the ACL does not pass keeps its exact subtree, under the explicit slot-closed hypothesis; plus the device "
-            "lemmas for any command stream. Witness theorems: C02_rewrite_is_not_removal, C02_slot_split_refuted, "
+            "Model/Device.v), rows at EVERY depth: the cursor invariant of Device.exec_path (C02_device_cursor, _cursor_elsewhere, "
+            "_siblings_untouched: a path h1..hk c changes only the block reached by h1..hk, siblings and their subtrees stay) and "
+            "C02_device_chain_kept (any command stream that leaves a chain of blocks alone keeps it; entering a block keeps its "
+            "children except those of %rewrite rules); C02_cant_delete_kept - along a chain of passed ancestor blocks that the diff "
+            "neither removes nor replaces, the slot of a cant_delete row is still occupied after the whole stream; "
+            "C02_uncovered_untouched - a row the ACL does not pass is still there with exactly its subtree, under the explicit "
+            "slot-closed hypothesis; C02_removed_block_not_recreated - a block the diff removes is untouched or gone, never re-created "
+            "(rests on C02_patch_items_sharp: only the `permanent` logic answers a REMOVED entry with a direct command); the hypotheses "
+            "are the top-level ones, stated per level on the entries of the diff. For the model pipeline the clauses of the run-time "
+            "predicate themselves: C02_cant_delete_kept_of_model / C02_uncovered_untouched_of_model / C02_weak_holds_of_model - "
+            "C02_c, C02_b, P_C02_weak = true for all inputs that satisfy the computable guards c_deep_guard / b_deep_guard (block "
+            "formatter, regular diff, per-row conditions for every row of old at every depth); C02_cant_delete_kept_full_of_model / "
+            "C02_holds_of_model - the full form of (c) and P_C02 itself = true when moreover no cant_delete row sits inside a block "
+            "the diff removes (c_full_guard: the class of the open finding is the only obstacle). The top-level theorems "
+            "(_partial, _top_guarded) are kept. Witness theorems: C02_rewrite_is_not_removal, C02_slot_split_refuted, "
             "C02_cant_delete_ancestor_refuted (open finding). Correspondence: generated ACL texts (nesting, *, ~, %global, "
             "%cant_delete, %prio, reverse-form lines, 1-3 generators merged by the real _combine_acl_text), rulebooks and trees with "
             "uncovered rows beside and below; Coq evaluates model==implementation (apply_acl, make_diff with ACL, diff, patch, "
-            "cmd_paths, patch text) and the full predicate P_C02 - clauses (a),(b),(c) at every depth - on the real cmd_paths and diff.",
-    "technique": "Coq induction over diff / patch trees, the formatter's block stream and device command streams; vm_compute "
-                 "evaluation of P_C02 and of model==implementation on real _diff_and_patch outputs with generated ACLs",
-    "note": "partial: clauses (b) and (c) are proved on the device only for top-level rows (the nested case needs the cursor "
-            "invariant of Device.exec_path); at every depth they are evaluated by Coq on each real output inside the device domain "
-            "(P_C01.wf_step, about 60% of the cases). Open finding C02/c/cant_delete-row-lost-with-its-ancestor-block: cant_delete "
-            "is not inherited by ancestor blocks, so (c) without an ancestor exception is false on the unchanged tree (witness "
-            "replayed on the real code on every run). Juniper/Nokia/RouterOS flattened command forms are out of scope.",
+            "cmd_paths, patch text) and the full predicate P_C02 - clauses (a),(b),(c) at every depth - on the real cmd_paths and diff; "
+            "the guards of the full-depth theorems are evaluated on every in-domain case (coverage: deep_guard_*).",
+    "technique": "Coq induction over diff / patch trees, the formatter's block stream, device command streams and chains of device "
+                 "blocks; vm_compute evaluation of P_C02 and of model==implementation on real _diff_and_patch outputs with generated ACLs",
+    "note": "partial: (b) and (c) are proved at every depth under guards stated on the entries of the diff, not yet under the device "
+            "domain alone (C02_cant_delete_kept_statement / C02_uncovered_untouched_statement stay Definitions). Missing: that the "
+            "domain (P_C01.wf_step on the rows of old and of the filtered new) implies the per-level conditions on the diff; blocks "
+            "with children that are cant_delete or `permanent`, absent from new, while new holds another row of their slot; "
+            "%force_commit rules (irregular diff) and %rewrite blocks. Measured on every run: the guards hold for about 93% of the "
+            "in-domain cases (97% apart from %force_commit); on all cases the clauses are evaluated by Coq on the real output. Open "
+            "finding C02/c/cant_delete-row-lost-with-its-ancestor-block: cant_delete is not inherited by ancestor blocks, so (c) without "
+            "an ancestor exception is false on the unchanged tree (witness replayed on the real code on every run). "
+            "Juniper/Nokia/RouterOS flattened command forms are out of scope.",
 }
 IMPORTS = (P.PIPE_IMPORTS + "\nFrom Annet Require Import Model.Device Model.Acl Model.AclPipeline Spec.P_C01 Spec.P_C02.")
+# the computable guards of the full-depth theorems (Proofs/AclDeviceNested.v), evaluated on the in-domain cases
+IMPORTS_DEEP = IMPORTS + "\nFrom Annet Require Import Proofs.AclPipelineProofs Proofs.AclDeviceNested."
 
 GEN_NAMES = ["g1", "g2", "g3"]
 
@@ -455,6 +473,32 @@ def run(ctx):
                          f"on every implementation output explored",
                     replay=dict(rep(cases[i], outs[i]), correspondence=a), no_input=True))
 
+    # how much of the device domain the hypotheses of the full-depth theorems cover (C02_cant_delete_kept_of_model,
+    # C02_uncovered_untouched_of_model): the guards are Coq predicates of the input, evaluated here on the in-domain cases
+    dom_idx = sorted(res["st_domain"])                    # st_* predicates are false on the members of the class
+    closed_idx = sorted(res["st_closed"])
+    guards = core.run_case_files(
+        ID, "c02case", IMPORTS_DEEP,
+        {"c_guard": "fun c => c_deep_guard (c2_in c)",
+         "c_full": "fun c => c_full_guard (c2_in c)",
+         "b_guard": "fun c => negb (c02_closed (c2_in c)) || b_deep_guard (c2_in c)",
+         "regular": "fun c => is_block_family (v_family (i_vendor (c2_in c))) && diff_regular (p_full_diff (c2_in c))"},
+        [coq_case(cases[i], outs[i]) for i in dom_idx], per_file=16, tag="guards") if dom_idx else {"c_guard": [], "c_full": [], "b_guard": [], "regular": []}
+    c_guard_false = {dom_idx[j] for j in guards["c_guard"]}
+    c_full_false = {dom_idx[j] for j in guards["c_full"]}
+    b_guard_false = {dom_idx[j] for j in guards["b_guard"]}
+    # the theorems say: guard => clause, for the model; with model == implementation the clause must hold on the real output
+    for i in dom_idx:
+        broken = [k for k, bad in (("c", c_guard_false), ("c_deep", c_full_false), ("b", b_guard_false))
+                  if i not in bad and i in res[f"cl_{k}"]]
+        if broken and i not in res["agree_paths"]:
+            ctx.add_violation(core.Violation(
+                signature="C02/deep-theorem-contradicted",
+                what=f"the guard of the full-depth theorem for clause {broken} holds, model and implementation agree on the "
+                     f"command paths, yet the clause is false on the real output",
+                replay=dict(rep(cases[i], outs[i]), clauses=broken), no_input=True))
+            break
+
     seen, nt = set(), 0
     hist_gen, hist_stream, vend = {}, {}, {}
     for i in keep:
@@ -486,6 +530,10 @@ def run(ctx):
         "assertion_error_cases": sum(1 for o in outs if o.get("err") == "AssertionError"),
         "in_device_domain": len(res["st_domain"]),          # the st_* predicates are false on the members of the class
         "in_device_domain_and_slot_closed": len(res["st_closed"]),
+        "deep_guard_c_holds_in_domain": len(dom_idx) - len(guards["c_guard"]),          # hypotheses of C02_cant_delete_kept_of_model
+        "deep_guard_c_full_holds_in_domain": len(dom_idx) - len(guards["c_full"]),      # ... of C02_cant_delete_kept_full_of_model
+        "deep_guard_b_holds_in_domain_and_closed": len(closed_idx) - len([i for i in closed_idx if i in b_guard_false]),
+        "in_domain_block_family_and_regular_diff": len(dom_idx) - len(guards["regular"]),
         "b_false_without_slot_closed": len(res["st_b_unguarded"]),
         "cant_delete_row_text_rewritten": len(res["st_c_text"]),
         "cant_delete_row_lost_with_ancestor": len(deep_only),
@@ -497,7 +545,8 @@ def run(ctx):
         "rule and ACL patterns restricted to the plain rule language of Model/Pattern.v (C07)",
         "block vendors only (the flattened set/delete forms of Juniper/Nokia/RouterOS are outside Device.v)",
         "clauses (b),(c) are statements about the reference device Model/Device.v inside its domain (P_C01.wf_step); "
-        "they are evaluated on every real output, not proved for all inputs",
+        "they are evaluated on every real output, and proved for all inputs that satisfy c_deep_guard / b_deep_guard "
+        "(coverage deep_guard_*), not for the whole domain",
         "not modelled: %ignore_case, %multiline, %comment/add_comments (with_annotations=False), vendor %logic functions",
     ]
     return cases, outs, res
